@@ -28,16 +28,31 @@ BOUNDS = [
 CUTS = []
 ASSUMPTIONS = ["the invariant used as pre-state validity IS the property (so every pre-state is reachable by add operations from the empty state)",
                "CrossHair 'Confirmed over all paths' within the per-condition timeout"]
-NOT_DECIDED = ["argument lists longer than 2, universes with more objects", "thorough tier: the third collection is never the *target* of add/remove/setters (it occurs as argument and in the pre-state)"]
+NOT_DECIDED = ["argument lists longer than 2, universes with more objects",
+               "5-object universe (thorough tier only): most conditions are not confirmed within the budget (explored without a counterexample: bug hunting only); "
+               "the third collection is never the *target* of add/remove/setters there (it occurs as argument and in the pre-state)"]
 
 
 def cases(tier, seed):
     cs = chlib.make_cases(FILE, tier, timeouts=(100, 900))
+    small = [dict(c) for c in cs if c["func"] != "h_plus_x4"]  # object index 4 exists only in the 5-object universe
+    for c in small:
+        c["env"] = {"VF_C11_NCOLL": "2"}
     if tier == "quick":
-        cs = [c for c in cs if c["func"] != "h_plus_x4"]  # object index 4 exists only in the 5-object universe
+        return small
+    # thorough: the 4-object universe again (longer budget: everything confirms) plus the 5-object universe, where CrossHair explores as far as
+    # the budget allows (most conditions end "not confirmed": bug hunting only, listed as inconclusive); the depth-3 conditions do not depend on it
+    big = []
     for c in cs:
-        c["env"] = {"VF_C11_NCOLL": "2" if tier == "quick" else "3"}
-    return cs
+        if "deep" in c["func"]:
+            continue
+        c = dict(c, id=c["id"] + "-universe5")
+        c["env"] = {"VF_C11_NCOLL": "3"}
+        big.append(c)
+    for c in small:
+        c["timeout"] = 300
+        c["budget"] = 300 * 3 + 60
+    return small + big
 
 
 def run_case(case, info):
